@@ -42,7 +42,8 @@ static ref::Header gen_header(Ctx &c) {
         ref::Entry e; e.digest = c.bytes(cds); if (h.flags & 4) e.udigest = c.bytes(cds);
         uint64_t k = c.draw(9);
         e.comp_len = k == 0 ? 0 : k < 7 ? c.skewed(1u << 20) : k == 7 ? (uint64_t)gen::boundary_value(c) : c.u64() >> c.draw(40);
-        e.len = c.boolean() ? e.comp_len : (c.rarely(6) ? (uint64_t)gen::boundary_value(c) : c.skewed(1u << 22));
+        e.len = (c.boolean() || (h.comp_type == 0 && !c.rarely(10))) ? e.comp_len : (c.rarely(6) ? (uint64_t)gen::boundary_value(c) : c.skewed(1u << 22));
+        if (e.comp_len == 0 && !c.rarely(10)) e.len = 0;
         h.entries.push_back(e);
     }
     h.count = n; h.sig_count = 0;
